@@ -807,7 +807,7 @@ impl Expr {
                     return Err(EvalErr::Arity(format!("scalar subquery returns {} columns", res.columns.len())));
                 }
                 match res.rows.len() {
-                    0 => Ok(V::Null),
+                    0 => Ok(V::Int(0)),
                     1 => Ok(res.rows[0][0].clone()),
                     _ => Err(EvalErr::ScalarSubqueryRows),
                 }
@@ -903,7 +903,7 @@ impl Consts {
             ints: vec![0, 1, 2],
             floats: vec![0.5, 1.0],
             texts: vec!["a".into(), "ab".into()],
-            like: vec!["a%".into(), "_b".into(), "%".into(), "a".into()],
+            like: vec!["a%".into(), "_b".into(), "a_".into(), "%".into(), "a".into()],
         }
     }
 }
